@@ -193,13 +193,15 @@ def run_case(ctx, g):
 
 
 def prelude(ctx, g, c, method):
-    """call history on ONE library file name: for a third of the file-path cases the same name first holds ANOTHER library
+    """call history on ONE library file name: for every second file-path case the same name first holds ANOTHER library
     of the same length (other rows, other ln_prior values), is sampled from with return_logprobs=True, and is then
     re-written with the case's library; the case proper must see the file's current content only"""
     if c["path"] != "file" or c["pool"] is not None:
         return
     prng = ctx.case_rng(g["kind"] + ":prelude", g["index"])
-    if prng.random() >= 0.34:
+    # every second case by index (not a coin: the number of preludes of a run should not depend on luck)
+    ctx.count("prelude: eligible file-path cases")
+    if g["index"] % 2 == 1:        # a function of the case alone, so that a replay of the case does the same
         return
     lib = c["lib"]
     path = lib.filename()
@@ -373,7 +375,7 @@ def run_it(ctx, g, c):
 
 def post(ctx):
     ctx.require("file-path cases whose file name held another library before (call history)",
-                ctx.counters["prelude: same file name held another library and was sampled from"], 15)
+                ctx.counters["prelude: same file name held another library and was sampled from"], 10)
     ctx.rule = RULE
     ctx.require("calls on a library whose ln_prior carries a scaled dimensionless unit", ctx.counters["calls on a library whose ln_prior carries a scaled dimensionless unit"], 3)
     ctx.require("runs returning more than 10000 accepted samples (file path, shuffled)", ctx.counters["big:accepted-samples>10000"], 1)
